@@ -24,7 +24,7 @@ ASSUMPTIONS = ["an exception raised at a call boundary stands for any failure at
                "temp files are not output files: they may exist under the run's private TMPDIR"]
 REAL_VS_STUB = {"real": ["gen_params, gen_seq, gen_coords end to end, vermouth DeferredFileWriter, real file system"],
                 "stub": ["tqdm disabled", "sys.argv pinned", "sys.settrace crash injector"]}
-PROBES = ["relative_output_path", "crash_between_open_and_write", "existing_file", "existing_backups", "later_success_other_path",
+PROBES = ["publish_across_filesystems", "relative_output_path", "crash_between_open_and_write", "existing_file", "existing_backups", "later_success_other_path",
           "natural_failure", "prog_gen_params", "prog_gen_seq", "prog_gen_coords", "success_backup_checked"]
 EXHAUSTIVE = {}
 
@@ -243,6 +243,25 @@ def run_job(job):
                     if not any(v["clause"] == clause for v in viols):
                         viols.append({"property": PROP, "clause": clause, "msg": "after an earlier failed attempt: " + msg,
                                       "seq": k, "facts": dict(facts, failed_op_before=True)})
+    # ---- publishing across file systems (rename -> EXDEV -> copy): the published file must be complete
+    if job["prog"] in ("gen_params", "gen_coords"):
+        res = zygotes.run_history(hs, {"ops": [dict(op, exdev=True)], "roundtrip": False}, timeout=300)
+        r = res["ops"][0]
+        evals += 1
+        probes["publish_across_filesystems"] = 1
+        nt.add(f"{job['prog']}:exdev")
+        if r["status"] != "ok":
+            viols.append({"property": PROP, "clause": "success.incomplete", "seq": 0, "facts": {"exdev": True},
+                          "msg": f"{job['prog']} fails when the temporary directory is on another file system: {r.get('error')}"})
+        else:
+            if r.get("out_text") != cal.get("out_text"):
+                a, b = len(r.get("out_text") or ""), len(cal.get("out_text") or "")
+                viols.append({"property": PROP, "clause": "success.incomplete", "seq": 0, "facts": {"exdev": True},
+                              "msg": f"{job['prog']} succeeded with the temporary directory on another file system but the "
+                                     f"published file differs from the complete one ({a} of {b} bytes)"})
+            for clause, msg, facts in _check_success(job, pre_map, r):
+                if not any(v["clause"] == clause for v in viols):
+                    viols.append({"property": PROP, "clause": clause, "msg": "[exdev] " + msg, "seq": 0, "facts": facts})
     if job.get("natural"):
         ff = ffgen.gen_ff(__import__("random").Random(job["run_seed"]))
         bad = histgen.failing_op(__import__("random").Random(job["run_seed"] + 1), ff,
